@@ -519,6 +519,11 @@ def python_traps(ctx, relpaths):
                 if len(loads) > 1 or in_loop:
                     bad.append((loads[0], f"generator {name} is used {'inside a loop' if in_loop else str(len(loads)) + ' times'}: the first use consumes it"))
             for c in walk_no_nested(f.node):
+                if isinstance(c, ast.Call) and any(isinstance(a_, ast.GeneratorExp) for a_ in c.args):
+                    r_ = repo.resolve_expr(m, c.func) if isinstance(c.func, (ast.Name, ast.Attribute)) else None
+                    if (isinstance(c.func, ast.Name) and c.func.id == "cls") or (r_ and r_[0] == "class"):
+                        bad.append((c, f"a generator expression is handed to the constructor {ast.unparse(c.func)[:30]}(): the object keeps a one-shot iterator "
+                                       f"(its first serialization consumes it)"))
                 if isinstance(c, ast.Compare) and any(isinstance(o, (ast.Is, ast.IsNot)) for o in c.ops):
                     for side in [c.left] + list(c.comparators):
                         if isinstance(side, ast.Constant) and isinstance(side.value, (int, str, bytes)) and not isinstance(side.value, bool):
